@@ -1,25 +1,35 @@
 ------------------------------- MODULE MC_Api -------------------------------
 (***************************************************************************)
 (* Model-checks the session machine of Api.tla (Independent holds), a      *)
-(* broken variant with a writable shared device selection (Independent     *)
-(* must fail: non-vacuity), and generates every complete schedule of the   *)
+(* broken variant with a writable shared device selection and one that     *)
+(* remembers the working directory of the first build (Independent must    *)
+(* fail for both: non-vacuity), and generates every complete schedule of the   *)
 (* stage steps of the concurrent builds (GEN: printed as REPLAY lines and  *)
 (* replayed with real threads by the harness).                             *)
 (***************************************************************************)
 EXTENDS Integers, Sequences, FiniteSets, TLC, Json
-CONSTANTS Threads, Programs, Broken
+CONSTANTS Threads, Programs, Broken, Latched, Envs
 \* abstract results: a program's result alone is determined by the device it selects (or none)
 DeviceOf == [p \in Programs |-> IF p = "pA" THEN "devA" ELSE IF p = "pB" THEN "devB" ELSE "none"]
-Alone == [p \in Programs |-> <<p, DeviceOf[p]>>]
-VARIABLES running, done, shared, sched
-vars == <<running, done, shared, sched>>
+\* "pR" names its include path relatively: what it assembles depends on the working directory it is started in
+ReadsEnv(p) == p = "pR"
+Alone == [p \in Programs |-> [e \in Envs |-> <<p, DeviceOf[p], IF ReadsEnv(p) THEN e ELSE "-">>]]
+VARIABLES running, done, shared, sched, env, latch
+vars == <<running, done, shared, sched, env, latch>>
 NStages == 4
-IdleRec == [p |-> "", s |-> -1, dev |-> "none"]
+IdleRec == [p |-> "", s |-> -1, dev |-> "none", e |-> "-"]
+E0 == CHOOSE e \in Envs : TRUE
 Idle(t) == running[t].s = -1
-Init == running = [t \in Threads |-> IdleRec] /\ done = << >> /\ shared = "none" /\ sched = << >>
+Init == running = [t \in Threads |-> IdleRec] /\ done = << >> /\ shared = "none" /\ sched = << >> /\ env = E0 /\ latch = "-"
+\* the caller changes the working directory between builds
+Chdir(d) == /\ \A t \in Threads : Idle(t)
+            /\ d # env /\ env' = d
+            /\ UNCHANGED <<running, done, shared, sched, latch>>
 Start(t, p) == /\ Idle(t) /\ \A i \in 1..Len(done) : done[i].t # t     \* one build per thread in this model
-               /\ running' = [running EXCEPT ![t] = [p |-> p, s |-> 0, dev |-> "none"]]
-               /\ UNCHANGED <<done, shared, sched>>
+               \* the latched variant takes the working directory of the first build of the process for every later one
+               /\ latch' = (IF latch = "-" THEN env ELSE latch)
+               /\ running' = [running EXCEPT ![t] = [p |-> p, s |-> 0, dev |-> "none", e |-> IF Latched THEN latch' ELSE env]]
+               /\ UNCHANGED <<done, shared, sched, env>>
 \* stage 1 (parse) selects the device; the broken variant keeps the selection in a variable shared by all builds
 Stage(t) == /\ ~Idle(t) /\ running[t].s < NStages
             /\ sched' = Append(sched, t)
@@ -30,16 +40,18 @@ Stage(t) == /\ ~Idle(t) /\ running[t].s < NStages
                     ELSE /\ running' = [running EXCEPT ![t].s = 1, ![t].dev = DeviceOf[running[t].p]]
                          /\ UNCHANGED shared
                ELSE /\ running' = [running EXCEPT ![t].s = @ + 1] /\ UNCHANGED shared
-            /\ UNCHANGED done
+            /\ UNCHANGED <<done, env, latch>>
 End(t) == /\ ~Idle(t) /\ running[t].s = NStages
-          /\ done' = Append(done, [t |-> t, p |-> running[t].p,
-                                   r |-> <<running[t].p, IF Broken THEN shared ELSE running[t].dev>>])
+          /\ done' = Append(done, [t |-> t, p |-> running[t].p, e |-> env,
+                                   r |-> <<running[t].p, IF Broken THEN shared ELSE running[t].dev,
+                                           IF ReadsEnv(running[t].p) THEN running[t].e ELSE "-">>])
           /\ running' = [running EXCEPT ![t] = IdleRec]
-          /\ UNCHANGED <<shared, sched>>
-Next == \E t \in Threads : (\E p \in Programs : Start(t, p)) \/ Stage(t) \/ End(t)
+          /\ UNCHANGED <<shared, sched, env, latch>>
+Next == (\E d \in Envs : Chdir(d)) \/ \E t \in Threads : (\E p \in Programs : Start(t, p)) \/ Stage(t) \/ End(t)
 Spec == Init /\ [][Next]_vars
-Independent == \A i \in 1..Len(done) : done[i].r = Alone[done[i].p]
+\* (the working directory cannot change while a build runs, so the one at the end is the one at the start)
+Independent == \A i \in 1..Len(done) : done[i].r = Alone[done[i].p][done[i].e]
 \* GEN: a schedule is complete when every thread has run all its stages
 Complete == Len(sched) = NStages * Cardinality(Threads)
-PrintSchedules == Complete /\ Len(done) = 0 /\ (\A t \in Threads : ~Idle(t) /\ running[t].p = "pA") => PrintT(<<"REPLAY", ToJson(sched)>>)
+PrintSchedules == Complete /\ Len(done) = 0 /\ env = E0 /\ (\A t \in Threads : ~Idle(t) /\ running[t].p = "pA") => PrintT(<<"REPLAY", ToJson(sched)>>)
 =============================================================================
